@@ -1031,8 +1031,13 @@ func (z *Decimal) SetFloat(x *big.Float) *Decimal {
 	}
 	z.acc = Exact
 	z.neg = x.Signbit()
-	if z.IsInf() {
+	if x.IsInf() {
 		z.form = inf
+		return z
+	}
+	if x.Sign() == 0 {
+		// ±0 (SetInt below would lose the sign)
+		z.form = zero
 		return z
 	}
 
